@@ -6,6 +6,7 @@ import StatimeModel.Model.ServoDriver
 import StatimeModel.Model.Metrics
 import StatimeModel.Model.Exporter
 import StatimeModel.Model.Net
+import StatimeModel.Model.Forwarder
 /-
 model-driver: line protocol, ops in (stdin), canonical observations out (stdout).
 One output line per input line (multi-part outputs are joined with " ; ").
@@ -17,6 +18,7 @@ structure DState where
   ovl : Option OvlState := none
   filt : Servo.Filt := .none
   nodes : List (Nat × Option Inst) := []
+  fwd : Fwd.St := {}
 
 def stepLine (st : DState) (line : String) : DState × String :=
   match words line with
@@ -30,6 +32,9 @@ def stepLine (st : DState) (line : String) : DState × String :=
   | "EXP" :: rest => (st, Exporter.expLine rest)
   | "MET" :: rest => (st, Metrics.metLine rest)
   | "FMT" :: rest => (st, Metrics.fmtLine rest)
+  | "FWD" :: rest =>
+    let (f, out) := Fwd.fwdLine st.fwd rest
+    ({ st with fwd := f }, out)
   | "FLT" :: rest =>
     let (f, out) := Servo.filtLine Servo.machine st.filt rest
     ({ st with filt := f }, out)
